@@ -41,6 +41,9 @@ type Fault struct {
 	Call  int  `json:"call"` // 1-based index among the calls that are eligible (see Executor)
 	Over  bool `json:"over"` // true: add Delta units, false: remove up to Delta units (keeping the total >= 1 and != dividend)
 	Delta uint `json:"delta"`
+	// Outside: the surplus lands on a configured priority that is NOT in the list the divider
+	// was called with (falls back to the first listed priority when every priority is listed)
+	Outside bool `json:"outside_the_list"`
 }
 
 // Script is one run of the priority lab (also the replay file format).
